@@ -404,17 +404,19 @@ func resolveUnionBatch(ctx context.Context, sources []interface{}, typ *Union, s
 	var workUnits []*WorkUnit
 	for srcType, sources := range sourcesByType {
 		gqlType := typ.Types[srcType]
+		// Resolve the member once, over the union-level selections and all of the
+		// fragments on this member: Flatten merges them and applies their directives.
+		merged := &SelectionSet{Selections: selectionSet.Selections}
 		for _, fragment := range selectionSet.Fragments {
-			if fragment.On != srcType {
-				continue
+			if fragment.On == srcType {
+				merged.Fragments = append(merged.Fragments, fragment)
 			}
-			units, err := resolveObjectBatch(ctx, sources, gqlType, fragment.SelectionSet, destinationsByType[srcType])
-			if err != nil {
-				return nil, err
-			}
-			workUnits = append(workUnits, units...)
 		}
-
+		units, err := resolveObjectBatch(ctx, sources, gqlType, merged, destinationsByType[srcType])
+		if err != nil {
+			return nil, err
+		}
+		workUnits = append(workUnits, units...)
 	}
 	return workUnits, nil
 }
